@@ -126,7 +126,7 @@ func kindsOf(stuck []string) string {
 
 func isFault(kind string) bool {
 	switch kind {
-	case "dropPost", "loseReply", "restart", "unready", "getFail", "outOfSync", "killTail":
+	case "dropPost", "loseReply", "restart", "unready", "getFail", "outOfSync", "killTail", "scaleDown":
 		return true
 	}
 	return false
@@ -323,7 +323,7 @@ func RunCase(c *Case, prop string, judgeHandOver bool) *Result {
 			if isFault(a.Kind) {
 				ph := w.phase()
 				res.FaultPhase = append(res.FaultPhase, a.Kind+"/"+ph)
-				if a.Kind == "restart" || a.Kind == "killTail" {
+				if a.Kind == "restart" || a.Kind == "killTail" || a.Kind == "scaleDown" {
 					idx := len(w.Shards) - 1
 					if a.Kind == "restart" && len(w.Shards) > 0 {
 						idx = a.Shard % len(w.Shards)
@@ -379,6 +379,12 @@ func RunCase(c *Case, prop string, judgeHandOver bool) *Result {
 	}
 	if w.Crash != "" {
 		res.add(prop+"/crash", "%s", w.Crash)
+	}
+	if judgeHandOver && w.Restarts == 0 {
+		for _, m := range w.HandOver {
+			res.add("C05/loop/hand-over-by-harness-count", "%s", m)
+			break
+		}
 	}
 	res.Transfers = w.Transfers
 	res.MaxShards = w.MaxShards
